@@ -350,7 +350,7 @@ example : (run foldSimp exOracle {} exEnv
     `f_sha3_<bits>(data)` otherwise, with the path conditions `sha3_data` appends; `hsha`: `I` interprets `f_sha3_<8n>`
     as the reference's hash of the `n` bytes and the model's hash of concrete data is the reference's.
     `hnc`: CREATE is not followed (`Cfg.create` off: it ends the path stuck); with it on see
-    `sound_calls_create_partial` below (`crMain` is an instance).
+    `sound_calls_create` below (`crMain` is an instance).
     Symbolic call / EXTCODE* targets, precompiles (as call targets) and cheat-code addresses end the path stuck: an
     error report, about which nothing is claimed. Known finding kept out by the tag `staticValue`: a value-bearing
     CALL in a static frame succeeds in the code (`TODO: revert if context is static`); the model stops there. Tagged ends (no claim):
@@ -382,10 +382,8 @@ theorem sound_calls_gen {s : Simp} (hs : SimpSound s) (o : Oracle) (cfg : Cfg) (
   obtain ⟨w', ⟨n, hn⟩, hW⟩ := hgood ce hce htag h hout I hI ⟨hbal, hsha⟩ f0 (relC_init hR0 hthis hd0 hcb hS0 hz) hsat
   exact ⟨n, w', hn, hW⟩
 
-/-- **C01.sound_calls** (statement and commentary above; `hnc`: CREATE is not followed — it ends the path stuck).
-    `wd w ce.created ce.nonce` is `w` with the created accounts' code and the allocator counter of the path: with
-    CREATE off nothing is ever created, so this is the start world `w` as far as the model can tell; what the
-    relation says of storage, logs and balances does not depend on it. -/
+/-- **C01.sound_calls** (statement and commentary above; `hnc`: CREATE is not followed — it ends the path stuck —, so
+    nothing is ever created (`runC_noCr`) and the relation is against the start world `w` itself). -/
 theorem sound_calls {s : Simp} (hs : SimpSound s) (o : Oracle) (cfg : Cfg) (env : Env)
     (codes : List (Nat × List Nat)) (this : Nat) (fuel : Nat) (p : Evm.Params) (w : Evm.World)
     (hmem : cfg.maxMem + 32 ≤ p.memLimit) (hdep : 1024 ≤ p.maxDepth)
@@ -399,46 +397,47 @@ theorem sound_calls {s : Simp} (hs : SimpSound s) (o : Oracle) (cfg : Cfg) (env 
     (f0 : Evm.Frame) (hR0 : R I env ((codeOf codes this).getD []) p initState f0) (hthis : f0.this = this)
     (hd0 : f0.depth = 0) (hsat : Sat I ce.e.st.path) :
     ∃ n w', Evm.exec p n w f0 = some (w', haltWith h (ce.e.data.map (·.eval I))) ∧
-        WRelM I (Modelled codes this) (wd w ce.created ce.nonce) w' (stoOf ce.stores) (evalLogs I ce.logs)
-          (balSem I w ce.bal) :=
-  sound_calls_gen hs o cfg env codes this fuel p w (Modelled codes this) (Or.inl rfl)
+        WRelM I (Modelled codes this) w w' (stoOf ce.stores) (evalLogs I ce.logs) (balSem I w ce.bal) := by
+  obtain ⟨n, w', hn, hW⟩ := sound_calls_gen hs o cfg env codes this fuel p w (Modelled codes this) (Or.inl rfl)
     (fun _ _ h => modelled_of_code h) hmem hdep hcodes hcb hz hob (CreateHyp.off hnc) ce hce htag h hout I hI hbal hsha
     f0 hR0 hthis hd0 hsat
+  obtain ⟨hc, hn0⟩ := runC_noCr hnc ce hce
+  rw [hc, hn0, wd_zero] at hW
+  exact ⟨n, w', hn, hW⟩
 
-/-- **C01.sound_calls_create_partial.** The same with CREATE followed (`cfg.create` on), PARTIAL in one respect: the
-    balances layer must be off (`hcv`), so a CREATE whose value is not the literal 0 ends the path stuck (no claim).
-    The modelled accounts now include the allocator's addresses (`ModelledC`), which must have no storage in the start
-    world like the others (`hz`). `hal`: the reference's allocator agrees with the code's `new_address()` — its `n`-th
-    address from the start world's counter on is `(allocBase + n) mod 2^160`; `hbw`: the start world's balances are
-    words. The conclusion's `WRelM … (wd w ce.created ce.nonce) w' …` contains the code clause for created accounts:
-    `w'.codeOf a` is the code the model installed (`ce.created`, newest first) and `w.codeOf a` elsewhere; and
-    `w'.created = w.created + ce.nonce` (one address per attempt, never rolled back). Covered: init code from concrete
-    memory bytes, the collision rule, the depth rule of the reference (through `hdep`), constructor frames (empty
-    calldata, fresh storage of the new account), code installation, failure with rollback of storage, logs and the
-    created accounts, EIP-211 return data, calls into created accounts, nested creates. Not covered: CREATE with a
-    value (needs the balances layer: stuck here), CREATE2, init code or constructor output with symbolic bytes (stuck). -/
-theorem sound_calls_create_partial {s : Simp} (hs : SimpSound s) (o : Oracle) (cfg : Cfg) (env : Env)
+/-- **C01.sound_calls_create.** The same with CREATE followed (`cfg.create` on, `hcr`), with or without the balances
+    layer (a CREATE whose value is not the literal 0 needs it — `cfg.balances` — as a value-bearing CALL does: else it
+    ends the path stuck). The modelled accounts now include the allocator's addresses (`ModelledC`), which must have
+    no storage in the start world like the others (`hz`). `hal`: the reference's allocator agrees with the code's
+    `new_address()` — its `n`-th address from the start world's counter on is `(allocBase + n) mod 2^160`; `hbw`: the
+    start world's balances are words. The conclusion's `WRelM … (wd w ce.created ce.nonce) w' …` contains the code
+    clause for created accounts: `w'.codeOf a` is the code the model installed (`ce.created`, newest first) and
+    `w.codeOf a` elsewhere; and `w'.created = w.created + ce.nonce` (one address per attempt, never rolled back).
+    Covered: init code from concrete memory bytes, the insufficient-funds branch and the value transfer into the new
+    account, the collision rule, the depth rule of the reference (through `hdep`), constructor frames (empty calldata,
+    fresh storage of the new account), code installation, failure with rollback of storage, logs, balances and the
+    created accounts, EIP-211 return data, calls into created accounts, nested creates. Error reports (no claim):
+    CREATE2, init code or constructor output with symbolic bytes. -/
+theorem sound_calls_create {s : Simp} (hs : SimpSound s) (o : Oracle) (cfg : Cfg) (env : Env)
     (codes : List (Nat × List Nat)) (this : Nat) (fuel : Nat) (p : Evm.Params) (w : Evm.World)
     (hmem : cfg.maxMem + 32 ≤ p.memLimit) (hdep : 1024 ≤ p.maxDepth)
     (hcodes : ∀ a, w.codeOf a = codeOf codes a)
     (hcb : ∀ a prog, codeOf codes a = some prog → ∀ b ∈ prog, b < 256)
     (hz : ∀ a, ModelledC cfg codes this a → ZeroStorage w a)
-    (hcv : cfg.create = true → cfg.balances = false)
-    (hal : cfg.create = true → ∀ n, p.newAddress (w.created + n) = (cfg.allocBase + n) % 2 ^ 160)
-    (hbw : cfg.create = true → ∀ a, w.balanceOf a < 2 ^ 256)
+    (hob : cfg.balances = true → OracleSound o) (hcr : cfg.create = true)
+    (hal : ∀ n, p.newAddress (w.created + n) = (cfg.allocBase + n) % 2 ^ 160)
+    (hbw : ∀ a, w.balanceOf a < 2 ^ 256)
     (ce : CEnd) (hce : ce ∈ (runC s o cfg env codes this fuel).ends)
     (htag : ce.e.tag = .normal) (h : Evm.Halt) (hout : ce.e.out = .halt h) (I : Interp) (hI : I.Std)
-    (hsha : cfg.sha3 = true → ShaInterp I p cfg)
+    (hbal : cfg.balances = true → BalHyp I cfg w) (hsha : cfg.sha3 = true → ShaInterp I p cfg)
     (f0 : Evm.Frame) (hR0 : R I env ((codeOf codes this).getD []) p initState f0) (hthis : f0.this = this)
-    (hd0 : f0.depth = 0) (hsat : Sat I ce.e.st.path) (hcr : cfg.create = true) :
+    (hd0 : f0.depth = 0) (hsat : Sat I ce.e.st.path) :
     ∃ n w', Evm.exec p n w f0 = some (w', haltWith h (ce.e.data.map (·.eval I))) ∧
         WRelM I (ModelledC cfg codes this) (wd w ce.created ce.nonce) w' (stoOf ce.stores) (evalLogs I ce.logs)
           (balSem I w ce.bal) :=
-  have hb : cfg.balances = false := hcv hcr
   sound_calls_gen hs o cfg env codes this fuel p w (ModelledC cfg codes this) (Or.inl (Or.inl rfl))
-    (fun _ _ h => Or.inl (modelled_of_code h)) hmem hdep hcodes hcb hz (fun h' => by rw [hb] at h'; cases h')
-    (fun hc => ⟨hcv hc, hal hc, fun n => Or.inr ⟨hc, n, rfl⟩, hbw hc⟩) ce hce htag h hout I hI
-    (fun h' => by rw [hb] at h'; cases h') hsha f0 hR0 hthis hd0 hsat
+    (fun _ _ h => Or.inl (modelled_of_code h)) hmem hdep hcodes hcb hz hob
+    (fun hc => ⟨hal, fun n => Or.inr ⟨hc, n, rfl⟩, hbw⟩) ce hce htag h hout I hI hbal hsha f0 hR0 hthis hd0 hsat
 
 /-! non-vacuity: a caller and a callee -/
 
@@ -639,7 +638,7 @@ example :
       some (Keccak.keccak256 (List.replicate 31 0 ++ [0x2a])) := by
   decide +kernel
 
-/-- CREATE (`cfg.create` on: `sound_calls_create_partial`): the runtime
+/-- CREATE (`cfg.create` on: `sound_calls_create`): the runtime
     code `mstore(0, caller); mstore(32, address); return(0, 64)` -/
 def crRuntime : List Nat := [0x33, 0x60, 0, 0x52, 0x30, 0x60, 0x20, 0x52, 0x60, 0x40, 0x60, 0, 0xf3]
 /-- its constructor: `mstore(0, <runtime>); return(19, 13)` -/
@@ -681,7 +680,7 @@ theorem create_end : ∃ ce ∈ (runC foldSimp exOracle { create := true } exEnv
     codeOf ce.created 0xaaaa0002 = some crRuntime := by
   decide +kernel
 
-/-- `sound_calls_create_partial` on it (non-vacuity): the reference EVM, executing the CREATE and the call into the
+/-- `sound_calls_create` on it (non-vacuity): the reference EVM, executing the CREATE and the call into the
     new account, returns those bytes, and the new account `0xaaaa0002` holds the runtime code in the final world -/
 example : ∃ n w', Evm.exec crP n crW { exF0 with code := crMain } =
         some (w', .success (Evm.natToBytes 32 0x1000 ++ Evm.natToBytes 32 0xaaaa0002 ++ Evm.natToBytes 32 0xaaaa0002)) ∧
@@ -690,7 +689,7 @@ example : ∃ n w', Evm.exec crP n crW { exF0 with code := crMain } =
   have hR : R exI exEnv ((codeOf crCodes 0x1000).getD []) crP initState { exF0 with code := crMain } :=
     ⟨rfl, rfl, StackRel.nil, ⟨exR.env.caller, exR.env.origin, exR.env.callvalue, exR.env.address, exR.env.cd,
       exR.env.cdByte, exR.env.cdSize, exR.env.isStatic⟩, exR.subst, MemRel.nil _, MemRel.nil _⟩
-  obtain ⟨n, w', h1, hW⟩ := sound_calls_create_partial foldSimp_sound exOracle { create := true } exEnv crCodes 0x1000
+  obtain ⟨n, w', h1, hW⟩ := sound_calls_create foldSimp_sound exOracle { create := true } exEnv crCodes 0x1000
     200 crP crW (by decide) (by decide) (fun a => rfl) (by
       intro a prog hc b hb
       have hall : ∀ q ∈ crCodes, ∀ b ∈ q.2, b < 256 := by decide
@@ -702,12 +701,36 @@ example : ∃ n w', Evm.exec crP n crW { exF0 with code := crMain } =
         simp only [Option.map_some, Option.some.injEq] at hc
         subst hc
         exact hall q (List.mem_of_find?_eq_some hf) b hb)
-    (fun _ _ _ => ⟨rfl, rfl⟩) (fun _ => rfl) (fun _ n => by show (0xaaaa0001 + (0 + n)) % 2 ^ 160 = _; rw [Nat.zero_add])
-    (fun _ a => by show Evm.lookupD [] a 0 < 2 ^ 256; simp [Evm.lookupD])
-    ce hce htag (.success []) hout exI exI_std (fun h => by cases h) _ hR rfl rfl (by rw [hp]; exact Sat.nil _) rfl
+    (fun _ _ _ => ⟨rfl, rfl⟩) (fun h => by cases h) rfl
+    (fun n => by show (0xaaaa0001 + (0 + n)) % 2 ^ 160 = _; rw [Nat.zero_add])
+    (fun a => by show Evm.lookupD [] a 0 < 2 ^ 256; simp [Evm.lookupD])
+    ce hce htag (.success []) hout exI exI_std (fun h => by cases h) (fun h => by cases h) _ hR rfl rfl
+    (by rw [hp]; exact Sat.nil _)
   refine ⟨n, w', ?_, ?_⟩
   · rw [h1, hd]; rfl
   · rw [hW.code, wd_codeOf, hcr]; rfl
+
+/-- a CREATE with a value (`cfg.create` and `cfg.balances` on): `a = create(5, 0, 0)` (empty init code),
+    `mstore(0, a); mstore(32, selfbalance()); return(0, 64)` -/
+def crValMain : List Nat :=
+  [0x60, 0, 0x60, 0, 0x60, 5, 0xf0, 0x60, 0, 0x52, 0x47, 0x60, 32, 0x52, 0x60, 64, 0x60, 0, 0xf3]
+def crValW : Evm.World := { code := [(0x1000, crValMain)], storage := [], transient := [], balance := [(0x1000, 100)] }
+
+/-- the model explores the creation (path satisfied by the valuation: the new address and 95 returned, 5 wei in the
+    new account, which exists with empty code) and the insufficient-funds branch (not satisfied by it); the reference
+    does the creation -/
+example :
+    (runC foldSimp exOracle { create := true, balances := true } exEnv [(0x1000, crValMain)] 0x1000 100).ends.map
+        (fun ce => (ce.e.st.path.all (·.eval exIB), (ce.e.data.map (·.eval exIB)).getLast?,
+          balSem exIB crValW ce.bal 0x1000, balSem exIB crValW ce.bal 0xaaaa0002)) =
+      [(true, some 95, 95, 5), (false, some 100, 100, 0)] ∧
+    (runC foldSimp exOracle { create := true, balances := true } exEnv [(0x1000, crValMain)] 0x1000 100).ends.map
+        (fun ce => (codeOf ce.created 0xaaaa0002, ce.nonce)) = [(some [], 1), (none, 1)] ∧
+    (Evm.exec crP 60 crValW { exF0 with code := crValMain }).map
+        (fun r => (r.2.data.getLast?, r.1.balanceOf 0x1000, r.1.balanceOf 0xaaaa0002)) = some (some 95, 95, 5) ∧
+    (Evm.exec crP 60 crValW { exF0 with code := crValMain }).map
+        (fun r => (r.1.codeOf 0xaaaa0002, r.1.created)) = some (some [], 1) := by
+  decide +kernel
 
 /-- a reverting callee: `sstore(0, 7); mstore(0, 0x2a); revert(0, 32)` -/
 def revCallee : List Nat := [0x60, 7, 0x60, 0, 0x55, 0x60, 0x2a, 0x60, 0, 0x52, 0x60, 32, 0x60, 0, 0xfd]
